@@ -207,6 +207,10 @@ Supported(x, y) == /\ y.nd \in {0, 1, 2}
                    \* a 2-d operand with one row is treated as that row by 1-d sparse objects (NumPy would
                    \* return / demand a 2-d result): outside the contract
                    /\ (x.nd = 1 /\ y.nd = 2) => Rows(y) # 1
+\* == and != also accept a dense column (m,1) next to a sparse 2-d array (every row is compared with its own length-1
+\* operand); arithmetic and ordering with such operands is refused by the library and stays outside the contract
+ColumnCmp(f, x, o, y) == /\ f \in {"eq", "ne"} /\ o.k \in {"list", "nd"} /\ x.nd = 2 /\ y.nd = 2
+                         /\ Cols(y) = 1 /\ Rows(y) = Rows(x) /\ Cols(x) > 1
 ZerosT(t) == Mk(Rows(t), Cols(t), LAMBDA i, j : IF t.b THEN FALSE ELSE Zero, t.b)
 
 \* ---- mutating operations: PostM gives <<new state, raises?>> ----------------
@@ -245,7 +249,7 @@ Pre(s, op, a) ==
                      /\ (a.o.k = "ref" => a.o.ref \in Names)
                      /\ LET x == s.objs[a.x]
                             y == Val(s, a.o) IN
-                        /\ Supported(x, y)
+                        /\ Supported(x, y) \/ ColumnCmp(a.f, x, a.o, y)
                         /\ a.f \in Arith => ~x.b /\ (a.f = "truediv" => ~HasZero(y))
                         /\ a.f \in Logic => x.b /\ y.b
                         /\ a.f \in Cmp \ {"eq", "ne"} => ~x.b /\ ~y.b
